@@ -146,6 +146,21 @@ def peer_connection_ownership(ctx: Ctx, rule: str):
             cons = f"{f.qualname}:{'clear' if is_clear else 'set'}({recv}.connection)"
             ctx.inst(cons, sample={"where": g.loc(node), "stmt": node.text(80)})
             subj = f"{recv}.connection"
+            # attach and detach resolve the peer the same way (node_name first): a peer attached
+            # through another key is never detached
+            if isinstance(t.value, ast.Name):
+                pdefs = [x.value for x in A.walk_no_nested(f.node) if isinstance(x, ast.Assign)
+                         and any(isinstance(y, ast.Name) and y.id == t.value.id for y in x.targets)]
+                owner_p = [a.arg for a in f.node.args.args][1] if len(f.node.args.args) > 1 else None
+                if pdefs and not all(isinstance(v, ast.Call) and A.call_name(v) == "self._find_connection_peer"
+                                     and [ast.unparse(a) for a in v.args] == [owner_p] for v in pdefs):
+                    ctx.fail(cons + "#resolver", g.loc(node), f"the peer whose connection attribute is "
+                             f"written in {f.qualname} is obtained as `{ast.unparse(pdefs[0])[:60]}`, not "
+                             f"through _find_connection_peer({owner_p}) like everywhere else: a "
+                             f"connection whose advertised identity names another configured peer "
+                             f"is attached to that peer too, and when it goes away only the peer it "
+                             f"was dialled for is cleaned up - the other keeps a closed connection "
+                             f"for ever and is never dialled again")
             if is_clear:
                 owner = [a.arg for a in f.node.args.args][1] if len(f.node.args.args) > 1 else None
 
@@ -282,6 +297,27 @@ def ready_state_stores(ctx: Ctx, rule: str):
                     if bad:
                         ctx.fail(cons + "#caller", bad[0].where, f"{f.name} is called from "
                                  f"{bad[0].func.qualname}, outside the capabilities exchange")
+                    # ... and only while the exchange is pending: the gate lets CER/CEA through in
+                    # every later state too (READY, WAITING_DWA, DISCONNECTING)
+                    CONNECTED = model.fold_name(peer_mod, "PEER_CONNECTED")
+                    for c in callers:
+                        if c.func.name not in ("receive_cer", "receive_cea"):
+                            continue
+                        gc_ = cfg_of(c.func)
+                        atc = Atomizer(model, c.func.module, c.func.cls)
+                        cn_ = [x for x in gc_.nodes if c.node in x.calls()]
+                        cv_ = ast.unparse(c.node.args[0]) if c.node.args else "?"
+                        fx = must_facts(gc_, atc, cn_[0]) if cn_ else set()
+                        cons2 = f"{c.func.qualname}:completes-only-when-CONNECTED"
+                        ctx.inst(cons2, sample=sorted(map(str, fx))[:6])
+                        if (f"{cv_}.state", "==", CONNECTED, True) not in fx:
+                            ctx.fail(cons2, c.where, f"{c.func.name} completes the handshake "
+                                     f"({f.name}) without requiring `{cv_}.state == PEER_CONNECTED`: a "
+                                     f"second CER / an unsolicited CEA turns a connection that is "
+                                     f"waiting for a DWA or DISCONNECTING (DPR answered) back into "
+                                     f"PEER_READY and clears the peer's disconnect reason; a CER/CEA "
+                                     f"still being handled while the node closes the connection "
+                                     f"resurrects it")
                     continue
                 if v == PREADY:
                     ok = (f"{recv}.state", "==", WAITING, True) in facts
